@@ -5,16 +5,8 @@
 From Coq Require Import ZArith Reals Lia.
 From Flocq Require Import Core.Core IEEE754.Binary IEEE754.Bits.
 From Dashu Require Import Base.Prelude Float.RoundSpec Float.Contract Float.Model Float.ModelProof
-  Float.TextIoSpec Conv.ConvSpec Conv.ConvModel Conv.ConvDecodeProofs.
+  Float.TextIoSpec Conv.ConvSpec Conv.ConvModel Conv.ConvDecodeProofs Float.IeeeImportModel.
 Open Scope Z_scope.
-
-(** impl_from_float_for_fbig: match f.decode() { Ok((man, exp)) => Repr::new(man, exp), precision =
-    man.unsigned_abs().bit_len(); infinities and NaN are not finite floats *)
-Definition from_ieee_asis (P : enc_params) (bits : Z) : option (Z * Z * Z) :=
-  match decode_asis P bits with
-  | DFin man exp => let '(s', e') := normalize 2 man exp in Some (s', e', bit_len man)
-  | _ => None
-  end.
 
 Definition ieee_of_decoded (d : decoded) : ieee :=
   match d with DFin m e => IFinite m e | DInf n => IInf n | DNan => INan end.
